@@ -32,9 +32,20 @@
                               the second clause of C07_statement (parsing yields related records) for the
                               opaque-path class of inputs (non-special scheme, rest not led by '/'), and
                               with it the statement for that class x the five setters x all histories
-   The gap: the protocol, host, hostname, pathname and href setters for all records and values, and
-   "every parse outside Known_C01 yields records related by corr" (the second clause of C07_statement)
-   beyond the opaque-path class and the 20 computed start URLs.
+     C07_protocol_equiv, C07_six_setters_partial / C07_six_histories, C07_sane_kept, C07_protocol_needs_sane
+                              the same for protocol (outside class 6, F-C07-7) with the relation corrS = corr +
+                              the invariants `sane` of the Standard's record (needed: witness), six setters
+     C07_hostname_equiv, C07_seven_setters_partial / C07_seven_histories
+                              the same for hostname on non-file URLs (outside classes 2, 3, 4), host parsers =
+                              arbitrary agreeing functions (host_fns_ok); seven setters
+     C07_protocol_standard_closed, C07_hostname_standard_closed
+                              the Standard's protocol / hostname setters in closed form
+     C07_opaque_class_corrS, C07_pathonly_class_corrS, C07_authority_class_corrS, C07_seven_classes,
+     C07_statement_seven_classes
+                              parsing yields corrS on the three proved no-base classes of non-special schemes
+                              of C01; with it the statement for these start URLs x seven setters x all histories
+   The gap: the host, pathname and href setters, hostname on file URLs, and "every parse outside Known_C01
+   yields records related by corrS" for special schemes (the second clause of C07_statement).
    It is covered by the fixed-seed differential run implementation <-> specification model of the
    harness (a test). *)
 From Coq Require Import String.
@@ -703,10 +714,7 @@ Print Assumptions C07_seven_histories.
    C07_authority_class_corrS): parse, then any sequence of assignments with any values - the ten API strings
    agree at the start and after every prefix *)
 Theorem C07_seven_classes : forall dbg hp ho hd shp shs, host_fns_ok hp ho hd shp shs ->
-  forall input u ops, usv_list input ->
-  in_class_opaque input = true \/ in_class_pathonly input = true
-  \/ (in_class_authority input = true /\ host_agree ho hd shp shs (class_host_text input)
-      /\ host_extra ho hd shp (class_host_text input)) ->
+  forall input u ops, usv_list input -> in_corrS_class ho hd shp shs input ->
   parse_url dbg hp ho hd None None input = POk u ->
   seven_ops ops -> outside_known dbg hp ho hd u ops ->
   exists su, spec_basic_url_parse shp input None = BDone su
@@ -717,10 +725,7 @@ Theorem C07_seven_classes : forall dbg hp ho hd shp shs, host_fns_ok hp ho hd sh
          /\ model_api dbg u' = Some (spec_api_list shs su').
 Proof. exact seven_from_classes. Qed.
 Check C07_seven_classes : forall dbg hp ho hd shp shs, host_fns_ok hp ho hd shp shs ->
-  forall input u ops, usv_list input ->
-  in_class_opaque input = true \/ in_class_pathonly input = true
-  \/ (in_class_authority input = true /\ host_agree ho hd shp shs (class_host_text input)
-      /\ host_extra ho hd shp (class_host_text input)) ->
+  forall input u ops, usv_list input -> in_corrS_class ho hd shp shs input ->
   parse_url dbg hp ho hd None None input = POk u ->
   seven_ops ops -> outside_known dbg hp ho hd u ops ->
   exists su, spec_basic_url_parse shp input None = BDone su
@@ -730,6 +735,31 @@ Check C07_seven_classes : forall dbg hp ho hd shp shs, host_fns_ok hp ho hd shp 
          /\ spec_run shp su (firstn n ops) = Some su'
          /\ model_api dbg u' = Some (spec_api_list shs su').
 Print Assumptions C07_seven_classes.
+
+(* in the shape of C07_statement: ONE abstraction relation (corrS) with the three clauses - related records
+   show the same ten API strings; parsing an input of the three classes (in_corrS_class: opaque path,
+   "scheme:/path", "scheme://authority" with its two host hypotheses) yields related records; every
+   assignment through the seven setters outside Known_C07 neither panics nor runs out of fuel and yields
+   related records.  Against C07_statement: seven setters instead of ten, three input classes instead of
+   "outside Known_C01", host_fns_ok instead of hosts_agree, values that are scalar-value strings. *)
+Theorem C07_statement_seven_classes : forall dbg hp ho hd shp shs, host_fns_ok hp ho hd shp shs ->
+  exists R : url -> spec_url -> Prop,
+    (forall u su, R u su -> model_api dbg u = Some (spec_api_list shs su))
+    /\ (forall input u, usv_list input -> in_corrS_class ho hd shp shs input ->
+          parse_url dbg hp ho hd None None input = POk u ->
+          exists su, spec_basic_url_parse shp input None = BDone su /\ R u su)
+    /\ (forall u su s v, R u su -> seven s = true -> usv_list v -> known_c07 u s v = 0 ->
+          exists u' su', model_set dbg hp ho hd s u v = Some u' /\ spec_step shp s su v = Some su' /\ R u' su').
+Proof. exact statement_seven_classes. Qed.
+Check C07_statement_seven_classes : forall dbg hp ho hd shp shs, host_fns_ok hp ho hd shp shs ->
+  exists R : url -> spec_url -> Prop,
+    (forall u su, R u su -> model_api dbg u = Some (spec_api_list shs su))
+    /\ (forall input u, usv_list input -> in_corrS_class ho hd shp shs input ->
+          parse_url dbg hp ho hd None None input = POk u ->
+          exists su, spec_basic_url_parse shp input None = BDone su /\ R u su)
+    /\ (forall u su s v, R u su -> seven s = true -> usv_list v -> known_c07 u s v = 0 ->
+          exists u' su', model_set dbg hp ho hd s u v = Some u' /\ spec_step shp s su v = Some su' /\ R u' su').
+Print Assumptions C07_statement_seven_classes.
 
 (* the hypothesis on the host functions can be met: every non-empty text that starts with neither ':' nor
    '@' is a domain / an opaque host that serialises as itself *)
